@@ -10,6 +10,22 @@ package boltz
 //@   pure
 //@   ensures result == fcUpd(self, arg0)
 
+// abbreviations
+// cell(b, n): the bytes stored under n ("" if nothing is stored there, n names a sub-bucket, or there is no bucket)
+//@ define cell(b, n) = ite(b.Bucket != nil && bktHas[b.Bucket][n] && bktSub[b.Bucket][n] == 0, bktVal[b.Bucket][n], "")
+//@ define proceeds(b, n, fc) = old(b.Err) == nil && (fc == nil || fcUpd(fc, n))
+//@ define kept(b) = bktHas[b.Bucket] == old(bktHas[b.Bucket]) && bktVal[b.Bucket] == old(bktVal[b.Bucket])
+//@ define wrote(b, n, v) = bktHas[b.Bucket] == sto(old(bktHas[b.Bucket]), n, true) && bktVal[b.Bucket] == sto(old(bktVal[b.Bucket]), n, v) && bktSub[b.Bucket][n] == 0
+
+// byte-string vocabulary (theory of byte strings: assumed)
+//@ spec byte1(x Int) Str
+//@ axiom byte1_def: (forall ((x Int)) (! (and (= (str_len (byte1 x)) 1) (=> (and (<= 0 x) (<= x 255)) (= (str_at (byte1 x) 0) x))) :pattern ((byte1 x))))
+//@ axiom byte1_ext: (forall ((s Str) (x Int)) (! (=> (and (= (str_len s) 1) (= (str_at s 0) x)) (= s (byte1 x))) :pattern ((byte1 x) (str_len s))))
+//@ spec u64(v Int) Int = (ite (< v 0) (+ v 18446744073709551616) v)
+//@ spec s64(v Int) Int = (ite (> v 9223372036854775807) (- v 18446744073709551616) v)
+//@ spec u32(v Int) Int = (ite (< v 0) (+ v 4294967296) v)
+//@ spec s32(v Int) Int = (ite (> v 2147483647) (- v 4294967296) v)
+
 // a write goes ahead only if no error is pending and the checker (if any) selects the field
 //@ func (*TypedBucket).ProceedWithSet
 //@   props C13
@@ -24,38 +40,263 @@ package boltz
 //@   assume bucket.ErrorHolderImpl != nil && bucket.Bucket != nil
 //@   requires[no-pending-error] bucket.Err == nil
 //@   modifies bucket.Err, bktHas[bucket.Bucket], bktVal[bucket.Bucket]
-//@   ensures[written] bucket.Err == nil ==> bktHas[bucket.Bucket] == sto(old(bktHas[bucket.Bucket]), name, true) && bktVal[bucket.Bucket] == sto(old(bktVal[bucket.Bucket]), name, ite(fieldType == TypeNil || value == nil, nilEnc(), prepend(fieldType, str(value))))
-//@   ensures[failed-atomically] bucket.Err != nil ==> bktHas[bucket.Bucket] == old(bktHas[bucket.Bucket]) && bktVal[bucket.Bucket] == old(bktVal[bucket.Bucket])
+//@   ensures[written] bucket.Err == nil ==> wrote(bucket, name, ite(fieldType == TypeNil || value == nil, nilEnc(), prepend(fieldType, str(value))))
+//@   ensures[failed-atomically] bucket.Err != nil ==> kept(bucket)
 //@ func (*TypedBucket).SetNil
 //@   props C13
 //@   assume bucket.ErrorHolderImpl != nil && bucket.Bucket != nil
 //@   modifies bucket.Err, bktHas[bucket.Bucket], bktVal[bucket.Bucket]
-//@   ensures[skipped] old(bucket.Err) != nil ==> bucket.Err == old(bucket.Err) && bktHas[bucket.Bucket] == old(bktHas[bucket.Bucket]) && bktVal[bucket.Bucket] == old(bktVal[bucket.Bucket])
-//@   ensures[written] old(bucket.Err) == nil && bucket.Err == nil ==> bktHas[bucket.Bucket] == sto(old(bktHas[bucket.Bucket]), name, true) && bktVal[bucket.Bucket] == sto(old(bktVal[bucket.Bucket]), name, nilEnc())
-//@   ensures[failed-atomically] old(bucket.Err) == nil && bucket.Err != nil ==> bktHas[bucket.Bucket] == old(bktHas[bucket.Bucket]) && bktVal[bucket.Bucket] == old(bktVal[bucket.Bucket])
+//@   ensures[skipped] old(bucket.Err) != nil ==> bucket.Err == old(bucket.Err) && kept(bucket)
+//@   ensures[written] old(bucket.Err) == nil && bucket.Err == nil ==> wrote(bucket, name, nilEnc())
+//@   ensures[failed-atomically] old(bucket.Err) == nil && bucket.Err != nil ==> kept(bucket)
 
 // getTyped: (tag, value) of what is stored under name; (TypeNil, nil) if nothing is, or if there is no bucket
 //@ func (*TypedBucket).getTyped
 //@   props C13
 //@   pure
-//@   ensures[no-bucket] bucket.Bucket == nil ==> result0 == TypeNil && result1 == nil
-//@   ensures[absent] bucket.Bucket != nil && !(bktHas[bucket.Bucket][name] && bktSub[bucket.Bucket][name] == 0) ==> result0 == TypeNil && result1 == nil
-//@   ensures[present] bucket.Bucket != nil && bktHas[bucket.Bucket][name] && bktSub[bucket.Bucket][name] == 0 && str_len(bktVal[bucket.Bucket][name]) > 0 ==> result0 == tagOf(bktVal[bucket.Bucket][name]) && (str_len(bktVal[bucket.Bucket][name]) > 1 ==> result1 != nil && str(result1) == untag(bktVal[bucket.Bucket][name])) && (str_len(bktVal[bucket.Bucket][name]) == 1 ==> result1 == nil)
+//@   ensures[absent] str_len(cell(bucket, name)) == 0 ==> result0 == TypeNil && result1 == nil
+//@   ensures[tag] str_len(cell(bucket, name)) > 0 ==> result0 == tagOf(cell(bucket, name))
+//@   ensures[payload] str_len(cell(bucket, name)) > 1 ==> result1 != nil && str(result1) == untag(cell(bucket, name))
+//@   ensures[no-payload] str_len(cell(bucket, name)) <= 1 ==> result1 == nil
+//@ func clone
+//@   props C13
+//@   pure
+//@   ensures[copy] (result == nil) == (val == nil) && str(result) == str(val)
 
-// string
+// ---- string ----
+//@ func BytesToString
+//@   props C13
+//@   pure
+//@   ensures[same-bytes] result != nil && fresh(result) && *result == str(buf)
+// assumed: the payload under a bool / int32 / int64 / float64 tag has the size the typed setters write
+//@ func FieldToString
+//@   props C13
+//@   pure
+//@   assume (fieldType == TypeBool ==> len(value) > 0) && (fieldType == TypeInt32 ==> len(value) == 4) && (fieldType == TypeInt64 ==> len(value) == 8) && (fieldType == TypeFloat64 ==> len(value) == 8)
+//@   censures[deterministic-null] (result == nil) == f2sNull(fieldType, str(value), value == nil)
+//@   censures[deterministic-value] result != nil ==> *result == f2sVal(fieldType, str(value))
+//@   ensures[string] fieldType == TypeString ==> result != nil && *result == str(value)
+//@   ensures[null] fieldType == TypeNil ==> result == nil
+//@ func (*TypedBucket).GetString
+//@   props C13
+//@   pure
+//@   ensures[string] str_len(cell(bucket, name)) > 0 && tagOf(cell(bucket, name)) == TypeString ==> result != nil && *result == untag(cell(bucket, name))
+//@   ensures[null] str_len(cell(bucket, name)) == 0 || tagOf(cell(bucket, name)) == TypeNil ==> result == nil
 //@ func (*TypedBucket).SetString
 //@   props C13
 //@   assume bucket.ErrorHolderImpl != nil && bucket.Bucket != nil
 //@   modifies bucket.Err, bktHas[bucket.Bucket], bktVal[bucket.Bucket]
 //@   ensures result == bucket
-//@   ensures[skipped] !(old(bucket.Err) == nil && (fieldChecker == nil || fcUpd(fieldChecker, name))) ==> bucket.Err == old(bucket.Err) && bktHas[bucket.Bucket] == old(bktHas[bucket.Bucket]) && bktVal[bucket.Bucket] == old(bktVal[bucket.Bucket])
-//@   ensures[written] old(bucket.Err) == nil && (fieldChecker == nil || fcUpd(fieldChecker, name)) && bucket.Err == nil ==> bktHas[bucket.Bucket] == sto(old(bktHas[bucket.Bucket]), name, true) && bktVal[bucket.Bucket] == sto(old(bktVal[bucket.Bucket]), name, prepend(TypeString, value))
-//@   ensures[failed-atomically] old(bucket.Err) == nil && bucket.Err != nil ==> bktHas[bucket.Bucket] == old(bktHas[bucket.Bucket]) && bktVal[bucket.Bucket] == old(bktVal[bucket.Bucket])
+//@   ensures[skipped] !proceeds(bucket, name, fieldChecker) ==> bucket.Err == old(bucket.Err) && kept(bucket)
+//@   ensures[written] proceeds(bucket, name, fieldChecker) && bucket.Err == nil ==> wrote(bucket, name, prepend(TypeString, value))
+//@   ensures[failed-atomically] proceeds(bucket, name, fieldChecker) && bucket.Err != nil ==> kept(bucket)
 //@ func (*TypedBucket).SetStringP
 //@   props C13
 //@   assume bucket.ErrorHolderImpl != nil && bucket.Bucket != nil
 //@   modifies bucket.Err, bktHas[bucket.Bucket], bktVal[bucket.Bucket]
 //@   ensures result == bucket
-//@   ensures[skipped] !(old(bucket.Err) == nil && (fieldChecker == nil || fcUpd(fieldChecker, name))) ==> bucket.Err == old(bucket.Err) && bktHas[bucket.Bucket] == old(bktHas[bucket.Bucket]) && bktVal[bucket.Bucket] == old(bktVal[bucket.Bucket])
-//@   ensures[written] old(bucket.Err) == nil && (fieldChecker == nil || fcUpd(fieldChecker, name)) && bucket.Err == nil ==> bktHas[bucket.Bucket] == sto(old(bktHas[bucket.Bucket]), name, true) && bktVal[bucket.Bucket] == sto(old(bktVal[bucket.Bucket]), name, ite(value == nil, nilEnc(), prepend(TypeString, *value)))
-//@   ensures[failed-atomically] old(bucket.Err) == nil && bucket.Err != nil ==> bktHas[bucket.Bucket] == old(bktHas[bucket.Bucket]) && bktVal[bucket.Bucket] == old(bktVal[bucket.Bucket])
+//@   ensures[skipped] !proceeds(bucket, name, fieldChecker) ==> bucket.Err == old(bucket.Err) && kept(bucket)
+//@   ensures[written] proceeds(bucket, name, fieldChecker) && bucket.Err == nil ==> wrote(bucket, name, ite(value == nil, nilEnc(), prepend(TypeString, *value)))
+//@   ensures[failed-atomically] proceeds(bucket, name, fieldChecker) && bucket.Err != nil ==> kept(bucket)
+
+// ---- bool ----
+//@ spec encBool(b Bool) Str = (prepend 1 (byte1 (ite b 1 0)))
+//@ func BytesToBool
+//@   props C13
+//@   pure
+//@   ensures[decoded] len(value) > 0 ==> result != nil && (str_at(str(value), 0) == 1 ==> *result) && (str_at(str(value), 0) == 0 ==> !*result)
+//@   ensures[empty] len(value) == 0 ==> result == nil
+//@ func FieldToBool
+//@   props C13
+//@   pure
+//@   censures[deterministic-null] (result == nil) == f2bNull(fieldType, str(value), value == nil)
+//@   censures[deterministic-value] result != nil ==> *result == f2bVal(fieldType, str(value))
+//@   ensures[bool] fieldType == TypeBool && len(value) > 0 ==> result != nil && (str_at(str(value), 0) == 1 ==> *result) && (str_at(str(value), 0) == 0 ==> !*result)
+//@   ensures[other] fieldType != TypeBool || len(value) == 0 ==> result == nil
+//@ func (*TypedBucket).GetBool
+//@   props C13
+//@   pure
+//@   ensures[bool] str_len(cell(bucket, name)) > 1 && tagOf(cell(bucket, name)) == TypeBool ==> result != nil && (str_at(cell(bucket, name), 1) == 1 ==> *result) && (str_at(cell(bucket, name), 1) == 0 ==> !*result)
+//@   ensures[other] str_len(cell(bucket, name)) <= 1 || tagOf(cell(bucket, name)) != TypeBool ==> result == nil
+//@ func (*TypedBucket).SetBool
+//@   props C13
+//@   assume bucket.ErrorHolderImpl != nil && bucket.Bucket != nil
+//@   modifies bucket.Err, bktHas[bucket.Bucket], bktVal[bucket.Bucket]
+//@   ensures result == bucket
+//@   ensures[skipped] !proceeds(bucket, name, checker) ==> bucket.Err == old(bucket.Err) && kept(bucket)
+//@   ensures[written] proceeds(bucket, name, checker) && bucket.Err == nil ==> wrote(bucket, name, encBool(value))
+//@   ensures[failed-atomically] proceeds(bucket, name, checker) && bucket.Err != nil ==> kept(bucket)
+
+// ---- int64 / int32 ----
+//@ func BytesToInt64
+//@   props C13
+//@   pure
+//@   ensures[decoded] len(buf) == 8 ==> result != nil && *result == s64(le64val(str(buf)))
+//@   ensures[wrong-size] len(buf) != 8 ==> result == nil
+//@ func BytesToInt32
+//@   props C13
+//@   pure
+//@   ensures[decoded] len(buf) == 4 ==> result != nil && *result == s32(le32val(str(buf)))
+//@   ensures[wrong-size] len(buf) != 4 ==> result == nil
+//@ func FieldToInt64
+//@   props C13
+//@   pure
+//@   censures[deterministic-null] (result == nil) == f2iNull(fieldType, str(value), value == nil)
+//@   censures[deterministic-value] result != nil ==> *result == f2iVal(fieldType, str(value))
+//@   ensures[int64] fieldType == TypeInt64 && len(value) == 8 ==> result != nil && *result == s64(le64val(str(value)))
+//@   ensures[int32-widens] fieldType == TypeInt32 && len(value) == 4 ==> result != nil && *result == s32(le32val(str(value)))
+//@   ensures[other] !(fieldType == TypeInt64 && len(value) == 8) && !(fieldType == TypeInt32 && len(value) == 4) ==> result == nil
+//@ func FieldToInt32
+//@   props C13
+//@   pure
+//@   ensures[int32] fieldType == TypeInt32 && len(value) == 4 ==> result != nil && *result == s32(le32val(str(value)))
+//@   ensures[other] !(fieldType == TypeInt32 && len(value) == 4) ==> result == nil
+//@ func (*TypedBucket).GetInt64
+//@   props C13
+//@   pure
+//@   ensures[int64] str_len(cell(bucket, name)) == 9 && tagOf(cell(bucket, name)) == TypeInt64 ==> result != nil && *result == s64(le64val(untag(cell(bucket, name))))
+//@   ensures[int32-widens] str_len(cell(bucket, name)) == 5 && tagOf(cell(bucket, name)) == TypeInt32 ==> result != nil && *result == s32(le32val(untag(cell(bucket, name))))
+//@   ensures[other] !(str_len(cell(bucket, name)) == 9 && tagOf(cell(bucket, name)) == TypeInt64) && !(str_len(cell(bucket, name)) == 5 && tagOf(cell(bucket, name)) == TypeInt32) ==> result == nil
+//@ func (*TypedBucket).GetInt32
+//@   props C13
+//@   pure
+//@   ensures[int32] str_len(cell(bucket, name)) == 5 && tagOf(cell(bucket, name)) == TypeInt32 ==> result != nil && *result == s32(le32val(untag(cell(bucket, name))))
+//@   ensures[other] !(str_len(cell(bucket, name)) == 5 && tagOf(cell(bucket, name)) == TypeInt32) ==> result == nil
+//@ func Int32ToBytes
+//@   props C13
+//@   pure
+//@   ensures[tag-then-le32] result != nil && str(result) == prepend(TypeInt32, le32(u32(value)))
+//@ func (*TypedBucket).SetInt64
+//@   props C13
+//@   assume bucket.ErrorHolderImpl != nil && bucket.Bucket != nil
+//@   modifies bucket.Err, bktHas[bucket.Bucket], bktVal[bucket.Bucket]
+//@   ensures result == bucket
+//@   ensures[skipped] !proceeds(bucket, name, fieldChecker) ==> bucket.Err == old(bucket.Err) && kept(bucket)
+//@   ensures[written] proceeds(bucket, name, fieldChecker) && bucket.Err == nil ==> wrote(bucket, name, prepend(TypeInt64, le64(u64(value))))
+//@   ensures[failed-atomically] proceeds(bucket, name, fieldChecker) && bucket.Err != nil ==> kept(bucket)
+//@ func (*TypedBucket).SetInt32
+//@   props C13
+//@   assume bucket.ErrorHolderImpl != nil && bucket.Bucket != nil
+//@   modifies bucket.Err, bktHas[bucket.Bucket], bktVal[bucket.Bucket]
+//@   ensures result == bucket
+//@   ensures[skipped] !proceeds(bucket, name, fieldChecker) ==> bucket.Err == old(bucket.Err) && kept(bucket)
+//@   ensures[written] proceeds(bucket, name, fieldChecker) && bucket.Err == nil ==> wrote(bucket, name, prepend(TypeInt32, le32(u32(value))))
+//@   ensures[failed-atomically] proceeds(bucket, name, fieldChecker) && bucket.Err != nil ==> kept(bucket)
+
+// ---- float64 ----
+//@ func BytesToFloat64
+//@   props C13
+//@   pure
+//@   ensures[decoded] len(buf) == 8 ==> result != nil && *result == f64frombits(le64val(str(buf)))
+//@   ensures[wrong-size] len(buf) != 8 ==> result == nil
+//@ func FieldToFloat64
+//@   props C13
+//@   pure
+//@   censures[deterministic-null] (result == nil) == f2fNull(fieldType, str(value), value == nil)
+//@   censures[deterministic-value] result != nil ==> *result == f2fVal(fieldType, str(value))
+//@   ensures[float64] fieldType == TypeFloat64 && len(value) == 8 ==> result != nil && *result == f64frombits(le64val(str(value)))
+//@   ensures[null] fieldType == TypeNil ==> result == nil
+//@ func (*TypedBucket).GetFloat64
+//@   props C13
+//@   pure
+//@   ensures[float64] str_len(cell(bucket, name)) == 9 && tagOf(cell(bucket, name)) == TypeFloat64 ==> result != nil && *result == f64frombits(le64val(untag(cell(bucket, name))))
+//@   ensures[null] str_len(cell(bucket, name)) == 0 || tagOf(cell(bucket, name)) == TypeNil ==> result == nil
+//@ func (*TypedBucket).SetFloat64
+//@   props C13
+//@   assume bucket.ErrorHolderImpl != nil && bucket.Bucket != nil
+//@   modifies bucket.Err, bktHas[bucket.Bucket], bktVal[bucket.Bucket]
+//@   ensures result == bucket
+//@   ensures[skipped] !proceeds(bucket, name, fieldChecker) ==> bucket.Err == old(bucket.Err) && kept(bucket)
+//@   ensures[written] proceeds(bucket, name, fieldChecker) && bucket.Err == nil ==> wrote(bucket, name, prepend(TypeFloat64, le64(f64bits(value))))
+//@   ensures[failed-atomically] proceeds(bucket, name, fieldChecker) && bucket.Err != nil ==> kept(bucket)
+
+// ---- time ----
+//@ func BytesToDatetime
+//@   props C13
+//@   pure
+//@   ensures[decoded] buf != nil && str(buf) == timeBin(timeBinVal(str(buf))) ==> result != nil && timeInstant(*result) == timeBinVal(str(buf))
+//@   ensures[nil] buf == nil ==> result == nil
+//@ func FieldToDatetime
+//@   props C13
+//@   pure
+//@   censures[deterministic-null] (result == nil) == f2dNull(fieldType, str(value), value == nil)
+//@   censures[deterministic-value] result != nil ==> timeInstant(*result) == f2dInstant(fieldType, str(value))
+//@   ensures[time] fieldType == TypeTime && value != nil && str(value) == timeBin(timeBinVal(str(value))) ==> result != nil && timeInstant(*result) == timeBinVal(str(value))
+//@   ensures[other] fieldType != TypeTime || value == nil ==> result == nil
+//@ func (*TypedBucket).GetTime
+//@   props C13
+//@   pure
+//@   ensures[time] str_len(cell(bucket, name)) > 1 && tagOf(cell(bucket, name)) == TypeTime && untag(cell(bucket, name)) == timeBin(timeBinVal(untag(cell(bucket, name)))) ==> result != nil && timeInstant(*result) == timeBinVal(untag(cell(bucket, name)))
+//@   ensures[other] str_len(cell(bucket, name)) <= 1 || tagOf(cell(bucket, name)) != TypeTime ==> result == nil
+//@ func (*TypedBucket).SetTime
+//@   props C13
+//@   assume bucket.ErrorHolderImpl != nil && bucket.Bucket != nil
+//@   modifies bucket.Err, bktHas[bucket.Bucket], bktVal[bucket.Bucket]
+//@   ensures result == bucket
+//@   ensures[skipped] !proceeds(bucket, name, fieldChecker) ==> bucket.Err == old(bucket.Err) && kept(bucket)
+//@   ensures[written] proceeds(bucket, name, fieldChecker) && bucket.Err == nil ==> wrote(bucket, name, prepend(TypeTime, timeBin(timeInstant(value))))
+//@   ensures[failed-atomically] proceeds(bucket, name, fieldChecker) && bucket.Err != nil ==> kept(bucket)
+//@ func (*TypedBucket).SetTimeP
+//@   props C13
+//@   assume bucket.ErrorHolderImpl != nil && bucket.Bucket != nil
+//@   modifies bucket.Err, bktHas[bucket.Bucket], bktVal[bucket.Bucket]
+//@   ensures result == bucket
+//@   ensures[skipped] !proceeds(bucket, name, fieldChecker) ==> bucket.Err == old(bucket.Err) && kept(bucket)
+//@   ensures[written] proceeds(bucket, name, fieldChecker) && bucket.Err == nil ==> wrote(bucket, name, ite(value == nil, nilEnc(), prepend(TypeTime, timeBin(timeInstant(*value)))))
+//@   ensures[failed-atomically] proceeds(bucket, name, fieldChecker) && bucket.Err != nil ==> kept(bucket)
+
+// ---- round-trip lemmas (bodies in zz_verif_lemmas.go) ----
+//@ func verifRoundTripString
+//@   props C13
+//@   assume b != nil && b.ErrorHolderImpl != nil && b.Bucket != nil
+//@   modifies b.Err, bktHas[b.Bucket], bktVal[b.Bucket]
+//@   ensures[string-reads-back] old(b.Err) == nil && b.Err == nil ==> result != nil && *result == v
+//@ func verifRoundTripStringP
+//@   props C13
+//@   assume b != nil && b.ErrorHolderImpl != nil && b.Bucket != nil
+//@   modifies b.Err, bktHas[b.Bucket], bktVal[b.Bucket]
+//@   ensures[null-stays-null] old(b.Err) == nil && b.Err == nil && v == nil ==> result == nil
+//@   ensures[string-reads-back] old(b.Err) == nil && b.Err == nil && v != nil ==> result != nil && *result == old(*v)
+//@ func verifRoundTripNil
+//@   props C13
+//@   assume b != nil && b.ErrorHolderImpl != nil && b.Bucket != nil
+//@   modifies b.Err, bktHas[b.Bucket], bktVal[b.Bucket]
+//@   ensures[null-reads-null] old(b.Err) == nil && b.Err == nil ==> result0 == nil && result1 == nil && result2 == nil && result3 == nil && result4 == nil && result5 == nil
+//@ func verifRoundTripBool
+//@   props C13
+//@   assume b != nil && b.ErrorHolderImpl != nil && b.Bucket != nil
+//@   modifies b.Err, bktHas[b.Bucket], bktVal[b.Bucket]
+//@   ensures[bool-reads-back] old(b.Err) == nil && b.Err == nil ==> result != nil && *result == v
+//@ func verifRoundTripInt64
+//@   props C13
+//@   assume b != nil && b.ErrorHolderImpl != nil && b.Bucket != nil
+//@   modifies b.Err, bktHas[b.Bucket], bktVal[b.Bucket]
+//@   ensures[int64-reads-back] old(b.Err) == nil && b.Err == nil ==> result != nil && *result == v
+//@ func verifRoundTripInt32
+//@   props C13
+//@   assume b != nil && b.ErrorHolderImpl != nil && b.Bucket != nil
+//@   modifies b.Err, bktHas[b.Bucket], bktVal[b.Bucket]
+//@   ensures[int32-reads-back] old(b.Err) == nil && b.Err == nil ==> result0 != nil && *result0 == v
+//@   ensures[int32-widens-to-int64] old(b.Err) == nil && b.Err == nil ==> result1 != nil && *result1 == v
+//@ func verifRoundTripFloat64
+//@   props C13
+//@   assume b != nil && b.ErrorHolderImpl != nil && b.Bucket != nil
+//@   modifies b.Err, bktHas[b.Bucket], bktVal[b.Bucket]
+//@   ensures[float64-reads-back] old(b.Err) == nil && b.Err == nil ==> result != nil && *result == v
+//@ func verifRoundTripTime
+//@   props C13
+//@   assume b != nil && b.ErrorHolderImpl != nil && b.Bucket != nil
+//@   modifies b.Err, bktHas[b.Bucket], bktVal[b.Bucket]
+//@   ensures[time-reads-back-same-instant] old(b.Err) == nil && b.Err == nil ==> result != nil && timeInstant(*result) == timeInstant(v)
+//@ func verifRoundTripTimeP
+//@   props C13
+//@   assume b != nil && b.ErrorHolderImpl != nil && b.Bucket != nil
+//@   modifies b.Err, bktHas[b.Bucket], bktVal[b.Bucket]
+//@   ensures[null-stays-null] old(b.Err) == nil && b.Err == nil && v == nil ==> result == nil
+//@   ensures[time-reads-back-same-instant] old(b.Err) == nil && b.Err == nil && v != nil ==> result != nil && timeInstant(*result) == old(timeInstant(*v))
+//@ func verifFieldCheckerSkips
+//@   props C13
+//@   assume b != nil && b.ErrorHolderImpl != nil && b.Bucket != nil
+//@   modifies b.Err, bktHas[b.Bucket], bktVal[b.Bucket]
+//@   ensures[unselected-field-untouched] fc != nil && !fcUpd(fc, name) && (str_len(old(cell(b, other))) == 0 || tagOf(old(cell(b, other))) == TypeString || tagOf(old(cell(b, other))) == TypeNil) ==> (result0 == nil) == (result1 == nil) && (result0 != nil ==> *result0 == *result1)
+//@   ensures[other-fields-untouched] other != name && (str_len(old(cell(b, other))) == 0 || tagOf(old(cell(b, other))) == TypeString || tagOf(old(cell(b, other))) == TypeNil) ==> (result0 == nil) == (result1 == nil) && (result0 != nil ==> *result0 == *result1)
